@@ -872,6 +872,10 @@ func runCase(run *vlib.Run, i, nSets, nQueries int) {
 				run.Broken(fmt.Sprintf("case %d: generated schema %d/%d is not closed: %v", i, s, v, p))
 				return
 			}
+			if p := keyTypeMismatches(d); len(p) > 0 {
+				run.Broken(fmt.Sprintf("case %d: generated schema %d/%d has a federated key input that differs from the object's key field (outside the property's quantifier): %v", i, s, v, p))
+				return
+			}
 			vs = append(vs, d)
 		}
 		abstract = append(abstract, vs)
